@@ -252,7 +252,7 @@ class KCase:
 
 
 def emit_case(c, fname):
-    ls = ['static std::string %s() {   // %s' % (fname, c.text())]
+    ls = ['static std::string %s(bool tags) {   // %s' % (fname, c.text())]
     names = 'abc' if c.op in ('bs2', 'bs3', 'sbt') else 'xyz'
     if c.op in ('bs2', 'bs3', 'sbt'):
         for j, (s, k) in enumerate(zip(c.shapes, c.kinds)):
@@ -278,7 +278,7 @@ def emit_case(c, fname):
             ls.append('    K6_ARRS(o, "%s", view::broadcast_arrays(%s));' % (n, ','.join(names[j] for j in payload)))
         elif what == 'add':
             ls.append('    K6_ARR(o, "%s", view::add(%s));' % (n, ','.join(names[j] for j in payload)))
-    ls.append('    return o.done();')
+    ls.append('    return o.done(tags);')
     ls.append('}')
     return '\n'.join(ls)
 
@@ -302,16 +302,16 @@ def emit_tu(cases):
         fn = 'c%d_%s' % (j, c.key)
         names.append(fn)
         out.append(emit_case(c, fn))
-    out += ['using fn_t = std::string(*)();',
+    out += ['using fn_t = std::string(*)(bool);',
             'static const std::map<std::string, fn_t>& table() {',
             '    static const std::map<std::string, fn_t> t = {']
     out += ['        {"%s", %s},' % (c.key, fn) for c, fn in zip(cases, names)]
     out += ['    };', '    return t;', '}',
             'std::string handle(const std::string& op, const proto::Args& a) {',
-            '    if (op != "k6") return "unknown-op";',
+            '    if (op != "k6" && op != "k6t") return "unknown-op";   // k6t: shape clauses as value@container',
             '    auto it = table().find(proto::get(a, "id"));',
             '    if (it == table().end()) return "unknown-case";',
-            '    return it->second();',
+            '    return it->second(op == "k6t");',
             '}']
     return '\n'.join(out) + '\n'
 
